@@ -161,7 +161,7 @@ def _groups_contracts(target, ctx, params):
         ghost[f"side{k}Groups[name] = tuple(sorted(members))"] = [f"m{k}0 = {{**{M}}}", f"o{k}0 = {{**owner{k}}}", f"tn{k} = {{**tn{k}, name: name_truncated}}"]
         ghost[f"{M}[member] = name_truncated"] = [f"owner{k} = {{**owner{k}, member: name}}"]
         # element-wise reading of the overlap test (so that `not known_members` can be used glyph by glyph)
-        hints[f"known_members = members.intersection({M}.keys())"] = [f"all(iff(g in known_members, g in {M}) for g in members)"]
+        hints[f"known_members = members.intersection({M}.keys())"] = [f"all(iff(g in known_members, g in {M}) for g in members)", f"all(iff(g in known_members, g in owner{k}) for g in members)"]
         # the truncated name, under the name used by the quantified clauses
         hints[f"name_truncated = name[len(SIDE{k}_PREFIX):]"] = [f"name_truncated == k5_trunc(name, {len(P1)})"]
         loops[f"for member in members#{k}"] = _own_member_loop(k)
@@ -202,11 +202,21 @@ def _groups_cases(rng, n):
     return [h.groups_case(rng, k) for k in range(n)]
 
 
+def _quiet():
+    # the writers log every regrouped glyph / redefined group: keep the check's output to its verdict lines
+    import logging
+
+    for n in ("ufo2ft.featureWriters.kernFeatureWriter", "ufo2ft.featureWriters.kernFeatureWriter2"):
+        logging.getLogger(n).setLevel(logging.CRITICAL)
+
+
 def _groups_build1(case):
+    _quiet()
     return {"self": c05._writer_for(case)}
 
 
 def _groups_build2(case):
+    _quiet()
     return {"context": c05._writer_for(case).context}
 
 
